@@ -236,7 +236,8 @@ def float_boundary(sess, cands, tr):
     """True when some order price of the real run is within float rounding of, but not equal to, a candle value"""
     import numpy as np
     import engoracles
-    for k, o in engoracles.order_table(tr).items():
+    table = engoracles.order_table(tr)
+    for k, o in table.items():
         p = o['price']
         if p is None:
             continue
@@ -244,6 +245,13 @@ def float_boundary(sess, cands, tr):
         d = np.abs(arr - float(p))
         if np.any((d > 0) & (d < 1e-9 * max(1.0, abs(float(p))))):
             return True
+        # … or of another order's price of the same symbol: a fill at that price cuts the minute there, and the cut candle's
+        # open / close is then the value this order is compared with
+        for k2, o2 in table.items():
+            if k2 != k and o2['sym'] == o['sym'] and o2['price'] is not None:
+                d2 = abs(float(o2['price']) - float(p))
+                if 0 < d2 < 1e-9 * max(1.0, abs(float(p))):
+                    return True
     return False
 
 
